@@ -147,8 +147,11 @@ package endorse
 //@   ensures[C15] ecOf(ctx) != nil && old(ecOf(ctx).MeasurementOnly) ==> signerCalls == old(signerCalls) && caCalls == old(caCalls) && vcGetOps == old(vcGetOps) && copsCalls == old(copsCalls)
 //@   ensures[C15] ecOf(ctx) != nil && old(ecOf(ctx).DryRun) ==> vcGetOps == old(vcGetOps) && copsCalls == old(copsCalls)
 // C14 (each backend is submitted to once per run): a run submits once to every backend of VCSs - or once to the lone
-// VCS when VCSs is empty - and to nothing else.
+// VCS when VCSs is empty - and to nothing else; it reports success only when every one of those submissions recorded
+// its result (a failed submission is never passed over).
 //@   ensures[C14] err == nil && ecOf(ctx) != nil && !old(ecOf(ctx).MeasurementOnly) ==> commitSubmits == old(commitSubmits) + ite(old(len(ecOf(ctx).VCSs)) == 0, ite(old(ecOf(ctx).VCS) != nil, 1, 0), old(len(ecOf(ctx).VCSs)))
+//@   ensures[C14,C13] err == nil && ecOf(ctx) != nil && !old(ecOf(ctx).MeasurementOnly) ==> vcResults == old(vcResults) + ite(old(len(ecOf(ctx).VCSs)) == 0, ite(old(ecOf(ctx).VCS) != nil, 1, 0), old(len(ecOf(ctx).VCSs)))
+//@   loop 1 invariant[C14,C13] vcResults == old(vcResults) + rangeindex + 1
 //@   loop 1 invariant[C14] commitSubmits == old(commitSubmits) + rangeindex + 1 && len(ec.VCSs) == ite(old(len(ecOf(ctx).VCSs)) == 0, ite(old(ecOf(ctx).VCS) != nil, 1, 0), old(len(ecOf(ctx).VCSs)))
 //@   loop 1 invariant ec == ecOf(ctx) && ec != nil && ec.DryRun == old(ecOf(ctx).DryRun) && ec.CommitRetries < 9223372036854775807
 //@   loop 1 invariant ec.DryRun ==> vcGetOps == old(vcGetOps) && copsCalls == old(copsCalls)
